@@ -228,7 +228,7 @@ func c02Split(c *Ctx) {
 							okStart = true
 						}
 					case "Chunker.hValue", "Chunker.hIdx":
-						if k, ok := x.Val.(*ssa.Const); ok && k.Int64() == 0 {
+						if k, ok := x.Val.(*ssa.Const); ok && constInt64(k) == 0 {
 							okHash++
 						}
 					}
